@@ -1,6 +1,7 @@
 package props
 
 import (
+	"sync"
 	"context"
 	"encoding/json"
 	"fmt"
@@ -38,6 +39,7 @@ type c15Req struct {
 type c15Case struct {
 	Signed bool     `json:"sign_and_encrypt"`
 	User   string   `json:"user"`
+	VerifyOnly bool `json:"gateway_does_not_issue_user_tokens,omitempty"` // real binary: EnableUserToken false, keys configured: /tokeninfo still verifies under exactly these keys
 	LongKey bool    `json:"long_signing_key,omitempty"` // sign-and-encrypt mode with a 64-character signing key (long enough for HS384/HS512, which must still be refused)
 	Reqs   []c15Req `json:"requests"`
 }
@@ -57,6 +59,7 @@ var c15Kinds = []string{"sig-hs384", "sig-hs512", "minted", "minted", "built", "
 func genC15(t *rapid.T) c15Case {
 	c := c15Case{Signed: rapid.Bool().Draw(t, "signed")}
 	c.LongKey = c.Signed && rapid.IntRange(0, 2).Draw(t, "longKey") == 0
+	c.VerifyOnly = rapid.IntRange(0, 3).Draw(t, "verifyOnly") == 0
 	c.User = rapid.SampledFrom([]string{"alice.liddell", "bob@example.com", "Ünïcødé-üser-名前", "user with spaces", strings.Repeat("long-user-", 12), "x", "victim.user@example.org",
 		strings.Repeat("very-long-user-name.", 10), strings.Repeat("u", 256) + "@example.org", strings.Repeat("dc=example,", 29) + "cn=u",
 		variedName(200), variedName(320), variedName(600)}).Draw(t, "user")
@@ -364,7 +367,11 @@ func TestC15_FN(t *testing.T) {
 func TestC15_BIN(t *testing.T) {
 	runProp(t, "C15_BIN", genC15, func(c c15Case) (bool, []string) { return true, []string{fmt.Sprintf("signed=%v", c.Signed)} }, func(c c15Case) *Violation {
 		w := W()
-		in, err := webInstance(webOpts{Store: "cookie", HostSelection: "roundrobin", Hosts: []string{w.addr("A")}, VerifyIP: true, EnableUserToken: true, UserSigningKey: c.Signed, UsernameTemplate: "{{ username }}::{{ token }}"})
+		wo := webOpts{Store: "cookie", HostSelection: "roundrobin", Hosts: []string{w.addr("A")}, VerifyIP: true, EnableUserToken: true, UserSigningKey: c.Signed, UsernameTemplate: "{{ username }}::{{ token }}"}
+		if c.VerifyOnly {
+			wo.EnableUserToken, wo.UsernameTemplate = false, ""
+		}
+		in, err := webInstance(wo)
 		if err != nil {
 			return viol("bin/start", "%v", err)
 		}
@@ -375,17 +382,25 @@ func TestC15_BIN(t *testing.T) {
 		if c.Signed {
 			security.UserSigningKey = []byte(c15SignKey)
 		}
-		// a token issued by the binary itself
-		b := newBrowser()
-		if lr, _, err := b.login(in, idp.CodeSpec{Sub: c.User, Username: c.User}); err != nil || lr.Code != 302 {
-			return viol("c15/setup", "login failed: %v %d", err, lr.Code)
+		// a token issued by the binary itself (or, when it issues none, by the harness under the same keys)
+		issued := ""
+		if c.VerifyOnly {
+			var merr error
+			if issued, merr = security.GenerateUserToken(context.Background(), c.User); merr != nil {
+				return viol("c15/mint-error", "%v", merr)
+			}
+		} else {
+			b := newBrowser()
+			if lr, _, err := b.login(in, idp.CodeSpec{Sub: c.User, Username: c.User}); err != nil || lr.Code != 302 {
+				return viol("c15/setup", "login failed: %v %d", err, lr.Code)
+			}
+			dr, err := b.get(in, "/connect")
+			if err != nil || dr.Code != 200 {
+				return viol("c15/setup", "download failed: %v %d %s", err, dr.Code, shorten(dr.Body))
+			}
+			m, _ := parseRDP(dr.Body)
+			issued = strings.TrimPrefix(rdpString(m, "username"), c.User+"::")
 		}
-		dr, err := b.get(in, "/connect")
-		if err != nil || dr.Code != 200 {
-			return viol("c15/setup", "download failed: %v %d %s", err, dr.Code, shorten(dr.Body))
-		}
-		m, _ := parseRDP(dr.Body)
-		issued := strings.TrimPrefix(rdpString(m, "username"), c.User+"::")
 		for i, r := range c.Reqs {
 			now := time.Now()
 			tok := issued
@@ -494,6 +509,55 @@ func TestC15_EXPIRY(t *testing.T) {
 		}
 		if _, err := security.UserInfo(context.Background(), tok); err == nil {
 			return viol("c15/accepted/expired-after-earlier-presentation", "UserInfo accepts a token %d s after its expiry once it had been presented while valid (mode signed=%v)", c.WaitS-c.ExpIn, c.Signed)
+		}
+		return nil
+	})
+}
+
+// ---- concurrent minting: a token minted for user U yields subject U whatever else is minted at the same time ----
+
+type c15Conc struct {
+	Signed  bool `json:"sign_and_encrypt"`
+	Workers int  `json:"concurrent_users"`
+	Each    int  `json:"tokens_each"`
+}
+
+func TestC15_CONC(t *testing.T) {
+	runProp(t, "C15_CONC", func(t *rapid.T) c15Conc {
+		return c15Conc{Signed: rapid.Bool().Draw(t, "signed"), Workers: rapid.IntRange(2, 24).Draw(t, "workers"), Each: rapid.IntRange(50, 400).Draw(t, "each")}
+	}, func(c c15Conc) (bool, []string) { return true, []string{fmt.Sprintf("signed=%v", c.Signed)} }, func(c c15Conc) *Violation {
+		security.UserEncryptionKey = []byte(c15EncKey)
+		c15CurSignKey = c15SignKey
+		security.UserSigningKey = nil
+		if c.Signed {
+			security.UserSigningKey = []byte(c15SignKey)
+		}
+		errs := make(chan string, c.Workers)
+		var wg sync.WaitGroup
+		for w := 0; w < c.Workers; w++ {
+			wg.Add(1)
+			go func(w int) {
+				defer wg.Done()
+				for i := 0; i < c.Each; i++ {
+					user := fmt.Sprintf("user-%02d-%06d@example.org", w, i)
+					tok, err := security.GenerateUserToken(context.Background(), user)
+					if err != nil {
+						errs <- fmt.Sprintf("cannot mint for %q: %v", user, err)
+						return
+					}
+					// the reference decryption, not the gateway's own reader, says whose token this is
+					if v, reason, sub := c15Verdict(tok, c.Signed, time.Now()); v != mustAccept || sub != user {
+						errs <- fmt.Sprintf("the token minted for %q while %d other users were minting is, by the reference, %s (%s) with subject %q", user, c.Workers-1, v, reason, sub)
+						return
+					}
+				}
+			}(w)
+		}
+		wg.Wait()
+		select {
+		case e := <-errs:
+			return viol("c15/concurrent-mint", "%s", e)
+		default:
 		}
 		return nil
 	})
